@@ -34,6 +34,11 @@ InlSrc(i, us) ==      \* us: TRUE = underscore emphasis markers
     [] i.k = "ent"  -> i.a
     [] i.k = "sup"  -> i.a \o "^" \o i.b \o "^"
     [] i.k = "sub"  -> i.a \o "~" \o i.b \o "~"
+    [] i.k = "lem"  -> "[" \o (IF us THEN "_" ELSE "*") \o i.a \o (IF us THEN "_" ELSE "*") \o "](" \o i.b \o ")"                 \* emphasis inside a link text
+    [] i.k = "lst"  -> "[" \o (IF us THEN "__" ELSE "**") \o i.a \o (IF us THEN "__" ELSE "**") \o " " \o i.c \o "](" \o i.b \o ")"   \* strong + plain word inside a link text
+    [] i.k = "lcode" -> "[`" \o i.a \o "`](" \o i.b \o ")"
+    [] i.k = "emc"  -> (IF us THEN "_" ELSE "*") \o i.a \o " `" \o i.b \o "` " \o i.c \o (IF us THEN "_" ELSE "*")                \* code span inside emphasis
+    [] i.k = "sem"  -> (IF us THEN "__" ELSE "**") \o i.a \o " " \o (IF us THEN "_" ELSE "*") \o i.b \o (IF us THEN "_" ELSE "*") \o " " \o i.c \o (IF us THEN "__" ELSE "**")
     [] i.k = "ref"  -> "[" \o i.a \o "][" \o Upper(i.x) \o "]"
     [] i.k = "fn"   -> i.a \o "[^" \o i.x \o "]"
     [] i.k = "math" -> (CASE i.x = "paren" -> "\\\\(" \o i.a \o "\\\\)" [] i.x = "brack" -> "\\\\[" \o i.a \o "\\\\]" [] i.x = "dollar" -> "$" \o i.a \o "$" [] OTHER -> "$$" \o i.a \o "$$")
@@ -45,7 +50,7 @@ InlHtml(i, cx) ==      \* cx = [mode, smart, notes]: notes = the document's foot
   CASE i.k = "t"    -> i.a
     [] i.k = "em"   -> "<em>" \o i.a \o "</em>"
     [] i.k = "st"   -> "<strong>" \o i.a \o "</strong>"
-    [] i.k = "code" -> "<code>" \o i.a \o "</code>"
+    [] i.k = "code" -> "<code>" \o Amp(i.a) \o "</code>"
     [] i.k = "link" -> "<a href=\"" \o i.b \o "\"" \o (IF i.c # "" THEN " title=\"" \o i.c \o "\"" ELSE "") \o ">" \o i.a \o "</a>"
     [] i.k = "auto" -> "<a href=\"" \o i.a \o "\">" \o i.a \o "</a>"
     [] i.k = "img"  -> "<img src=\"" \o i.b \o "\" alt=\"" \o i.a \o "\" />"
@@ -54,6 +59,11 @@ InlHtml(i, cx) ==      \* cx = [mode, smart, notes]: notes = the document's foot
     [] i.k = "ent"  -> i.b
     [] i.k = "sup"  -> IF cx.mode = "mmd" THEN i.a \o "<sup>" \o i.b \o "</sup>" ELSE i.a \o "^" \o i.b \o "^"
     [] i.k = "sub"  -> IF cx.mode = "mmd" THEN i.a \o "<sub>" \o i.b \o "</sub>" ELSE i.a \o "~" \o i.b \o "~"
+    [] i.k = "lem"  -> "<a href=\"" \o i.b \o "\"><em>" \o i.a \o "</em></a>"
+    [] i.k = "lst"  -> "<a href=\"" \o i.b \o "\"><strong>" \o i.a \o "</strong> " \o i.c \o "</a>"
+    [] i.k = "lcode" -> "<a href=\"" \o i.b \o "\"><code>" \o i.a \o "</code></a>"
+    [] i.k = "emc"  -> "<em>" \o i.a \o " <code>" \o i.b \o "</code> " \o i.c \o "</em>"
+    [] i.k = "sem"  -> "<strong>" \o i.a \o " <em>" \o i.b \o "</em> " \o i.c \o "</strong>"
     [] i.k = "ref"  -> "<a href=\"" \o Amp(i.b) \o "\"" \o (IF i.c # "" THEN " title=\"" \o i.c \o "\"" ELSE "") \o ">" \o i.a \o "</a>"
     [] i.k = "fn"   -> LET n == ToString(NoteNo(cx.notes, i.x, 1)) IN
                        i.a \o "<a href=\"#fn:" \o n \o "\" id=\"fnref:" \o n \o "\" title=\"see footnote\" class=\"footnote\"><sup>" \o n \o "</sup></a>"
@@ -68,6 +78,8 @@ Inlines == { Inl("t", "alpha", "", ""), Inl("em", "beta", "", ""), Inl("st", "x1
              Inl("smart", "x1---beta", "x1&#8212;beta", "x1---beta"), Inl("smart", "alpha...", "alpha&#8230;", "alpha..."), Inl("smart", "it's", "it&#8217;s", "it's"),
              Inl("em", "b", "", ""), Inl("st", "s", "", ""), Inl("code", "c", "", ""), Inl("link", "l", "http://u.rl/p", ""), Inl("img", "x", "i.png", ""),      \* one-character contents
              Inl("smart", "3-fold", "3-fold", "3-fold"), Inl("smart", "well-known", "well-known", "well-known"), Inl("smart", "'alpha'", "&#8216;alpha&#8217;", "'alpha'") }
+\* inlines inside inlines
+NestInl == {Inl("lem", "beta", "http://u.rl/p", ""), Inl("lst", "x1", "http://u.rl/p", "alpha"), Inl("lcode", "co de", "http://u.rl/p", ""), Inl("emc", "alpha", "co de", "x1"), Inl("sem", "alpha", "beta", "x1")}
 \* MultiMarkdown-only inlines (not compared in compatibility mode): math in its four spellings, reference links, footnotes
 RefA == Inl4("ref", "alpha", "http://a.b/c", "", "alpha")           \* implicit label: written [alpha][]
 RefB == Inl4("ref", "beta", "http://l.ab/x?p=1&q=2", "Ti tle", "lab")
@@ -189,12 +201,13 @@ Pick(S) == IF Sim THEN {RandomElement(S)} ELSE S
 T(a) == Inl("t", a, "", "")
 T1(a) == <<T(a)>>
 EmB == <<Inl("em", "beta", "", "")>>
-HeadTexts == {<<T("alpha")>>, <<T("alpha"), T("beta")>>, <<T("x1")>>}
-ParaLines == {<<i>> : i \in Inlines \cup MmdInlines} \cup {<<T("alpha"), i, T("x1")>> : i \in (Inlines \cup MmdInlines) \ {Inl("br", "x1", "beta", "")}}
+HeadTexts == {<<T("alpha")>>, <<T("alpha"), T("beta")>>, <<T("x1")>>, <<T("alpha-")>>, <<T("beta"), T("x1-")>>}
+ParaLines == {<<i>> : i \in Inlines \cup MmdInlines \cup NestInl} \cup {<<T("alpha"), i, T("x1")>> : i \in (Inlines \cup MmdInlines \cup NestInl) \ {Inl("br", "x1", "beta", "")}}
              \cup {<<FnB, T("beta"), FnA>>, <<RefB, RefA, RefB>>, <<FnA, RefA>>}
 Leaf == {Para(<<T("alpha")>>), Para(<<Inl("em", "beta", "", ""), T("x1")>>)}
+NestLeaf == {Para(<<Inl("lst", "x1", "http://u.rl/p", "alpha")>>), Para(<<T("beta"), Inl("emc", "alpha", "co de", "x1")>>)}
 MmdLeaf == {Para(<<FnA>>), Para(<<RefB, T("x1")>>)}
-Cells == {<<T("alpha")>>, <<Inl("em", "beta", "", "")>>, <<Inl("code", "co de", "", "")>>, <<Inl("ent", "&", "&amp;", ""), T("x1")>>, <<Inl("link", "alpha", "http://u.rl/p", "")>>, <<RefB>>, <<Inl("st", "x1", "", ""), T("beta")>>}
+Cells == {<<Inl("lem", "beta", "http://u.rl/p", "")>>, <<Inl("code", "a & b", "", "")>>, <<T("alpha")>>, <<Inl("em", "beta", "", "")>>, <<Inl("code", "co de", "", "")>>, <<Inl("ent", "&", "&amp;", ""), T("x1")>>, <<Inl("link", "alpha", "http://u.rl/p", "")>>, <<RefB>>, <<Inl("st", "x1", "", ""), T("beta")>>}
 Als == {<<"l", "c", "r">>, <<"n", "n">>, <<"c">>, <<"n", "r">>, <<"r", "n", "l">>}
 RowsFor(n) == {<<[j \in 1 .. n |-> c]>> : c \in Cells} \cup {<<[j \in 1 .. n |-> <<T("x1")>>], [j \in 1 .. n |-> IF j = 1 THEN c ELSE <<T("beta")>>]>> : c \in Cells}
 Tables == UNION {{Table(al, [j \in 1 .. Len(al) |-> IF j = 2 THEN <<Inl("em", "beta", "", "")>> ELSE <<T("alpha")>>], rows, cap) : rows \in RowsFor(Len(al)), cap \in {"", "caption"}} : al \in Als}
@@ -213,7 +226,7 @@ SomeTable == Table(<<"n", "r">>, <<T1("alpha"), T1("beta")>>, << <<EmB, T1("x1")
 SomeDl == DefList(<<Grp(<<T1("alpha")>>, << <<T("x1"), T("beta")>> >>)>>)
 \* (a table inside a block quote is not in the documented subset: the guides show tables at the top level only, and the library reads '> | a | b |' as text)
 Containers == {Quote(<<c>>) : c \in Simple \cup MmdLeaf \cup {SomeDl}} \cup {Quote(<<c1, c2>>) : c1 \in Leaf, c2 \in Simple}
-              \cup {List(o, z, <<a, b>>) : o \in BOOLEAN, z \in BOOLEAN, a \in Leaf \cup MmdLeaf, b \in Leaf} \cup {List(o, FALSE, <<a>>) : o \in BOOLEAN, a \in Leaf}
+              \cup {List(o, z, <<a, b>>) : o \in BOOLEAN, z \in BOOLEAN, a \in Leaf \cup MmdLeaf \cup NestLeaf, b \in Leaf} \cup {List(o, FALSE, <<a>>) : o \in BOOLEAN, a \in Leaf}
               \cup {Quote(<<List(FALSE, FALSE, <<a, b>>)>>) : a \in Leaf, b \in Leaf \cup MmdLeaf}
 Independent == Simple \cup {Quote(<<c>>) : c \in Leaf} \cup {SomeTable, SomeDl}        \* blocks that do not refer to one another: the compositionality family
 \* documents whose notes and references interleave: numbering by first reference, definitions shared
